@@ -1350,9 +1350,12 @@ func (g *Gen) misuseOp() *Op {
 		// uniform over the arities that fit
 		byArity := map[int][]int{}
 		var ar []int
+		// in a third of the cases any tuple will do: the query is then (mostly) empty, which is all the rows about
+		// finished queries need, and the high arities - which hardly any entity covers - get their share
+		anyTuple := R.Chance(35)
 		for ti := range typed.Tuples {
 			cs := typed.Tuples[ti].Comps
-			if typed.Tuples[ti].NewFilter != nil && mask.Contains(SetOf(cs...)) {
+			if typed.Tuples[ti].NewFilter != nil && (anyTuple || mask.Contains(SetOf(cs...))) {
 				if len(byArity[len(cs)]) == 0 {
 					ar = append(ar, len(cs))
 				}
